@@ -6,7 +6,9 @@ each `Authorization::from(bool)` is built from) and compared with the reference
 table transcribed from the property statement.  DOM/EXCL: the mutators
 (`T::action`) run only under `Allow`; `Deny` is an error, `Unknown` is a no-op;
 who may call the mutators; the delegate set consulted is the one of the identity
-document the op refers to; the matches have no wildcard arm."""
+document the op refers to; the matches have no wildcard arm. 
+The author accessors the table compares with (`Comment::author`, `Issue::author`,
+`Revision::author`, ..) return a field written only where the object is created."""
 import re
 
 from .. import cfg, rules, flow, table
